@@ -262,9 +262,14 @@ func main() {
 		}
 		if v.Class == "race" {
 			rep := raceReport()
-			if rep != "" {
-				v.Sig = "race " + raceSig(rep)
-				v.Detail += "\n" + clip(rep, 6000)
+			if lib := libraryRaces(rep); rep != "" && len(lib) == 0 {
+				// only the world's own code is involved (two client tasks sharing a plain variable of the harness):
+				// not a statement about the library
+				v.Class, v.Sig, v.Detail = "", "", ""
+				a.Probes["harness-race-ignored"]++
+			} else if len(lib) > 0 {
+				v.Sig = "race " + raceSig(lib[0])
+				v.Detail += "\n" + clip(strings.Join(lib, "\n"), 6000)
 			}
 		}
 		if v.Class != "" {
@@ -317,6 +322,21 @@ func raceReport() string {
 }
 
 // raceSig is the sorted pair of innermost library functions of the first report's two stacks.
+// libraryRaces splits the detector's output into reports and keeps those in which a function of the library (not
+// of the harness) appears in one of the two access stacks.
+func libraryRaces(rep string) []string {
+	var out []string
+	for _, r := range strings.Split(rep, "==================") {
+		if !strings.Contains(r, "DATA RACE") {
+			continue
+		}
+		if raceSig(r) != "{}" {
+			out = append(out, strings.TrimSpace(r))
+		}
+	}
+	return out
+}
+
 func raceSig(rep string) string {
 	var fns []string
 	lines := strings.Split(rep, "\n")
@@ -388,6 +408,7 @@ func doReplay(path string, showLog bool) int {
 		fmt.Fprintf(os.Stderr, "worker: replay file was recorded with a race build\n")
 	}
 	worlds.CheckSeed = rf.Seed
+	raceReport() // start from here
 	for _, idx := range rf.Prelude {
 		pl := p.Gen(worlds.NewRand(worlds.Mix(rf.Seed, idx, 1)), idx, rf.Tier)
 		p.Run(pl, worlds.Mix(rf.Seed, idx, 2), nil, false, false)
@@ -399,6 +420,11 @@ func doReplay(path string, showLog bool) int {
 	if showLog && o != nil {
 		for _, l := range logTail(o, 1<<30) {
 			fmt.Fprintln(out, l)
+		}
+	}
+	if v.Class == "race" {
+		if rep := raceReport(); rep != "" && len(libraryRaces(rep)) == 0 {
+			v.Class, v.Sig, v.Detail = "", "", ""
 		}
 	}
 	res := map[string]interface{}{"t": "replay", "class": v.Class, "sig": v.Sig, "detail": v.Detail, "machinery": v.Machinery,
